@@ -76,6 +76,7 @@ Definition op_wf (o : op) : bool :=
   | ORefresh inv => forallb (fun i => res_nonneg (di_res i)) inv
   | OSchedule _ rq | OPreemptFilter _ rq _ => raw_nonneg rq
   | OForeignAdd _ al | OPodUpdate _ al => dallocs_wf (group_allocs al)
+  | OFilter _ rq _ al => raw_nonneg rq && dallocs_wf (group_allocs al)
   | _ => true
   end.
 (* operations by which the environment changes amounts on its own authority *)
@@ -190,6 +191,60 @@ Definition preempt_short_t (kind : Z) (pl : list ledger) (infos : list devinfo) 
   | _ => false
   end.
 
+(* ================================================================== designated allocations *)
+(* what a designated pod may take from device m: per exposed resource min(free, designated amount),
+   nothing of an exposed resource the designation does not mention *)
+Definition onorm (t x : option Z) : option Z :=
+  match x with Some v => Some v | None => match t with Some _ => Some 0 | None => None end end.
+Definition rnorm : res -> res -> res := rmap2 onorm.
+Definition avail_at (l : ledger) (rq : devres) (m : nat) : option res :=
+  match dget (free l) m, dget rq m with
+  | Some f, Some r => Some (rnorm (ores (dget (total l) m)) (rmin f r))
+  | _, _ => None
+  end.
+(* the ledger a designated pod is allocated from: only the designated devices, with these free amounts *)
+Definition desig_avail (l : ledger) (rq : devres) : ledger :=
+  if dis_empty rq then l
+  else let ms := seq 0 (length (free l)) in
+       mkLedger (map (fun m => match avail_at l rq m with
+                               | Some _ => Some (ores (dget (total l) m)) | None => None end) ms)
+                (map (avail_at l rq) ms)
+                (map (fun m => match avail_at l rq m with
+                               | Some a => Some (rsubnn (ores (dget (total l) m)) a) | None => None end) ms)
+                [].
+Definition avail_of (pl : list ledger) (dg : dallocs) (t : nat) : ledger :=
+  desig_avail (ledger_of pl t) (required_of dg t).
+
+(* clause 4 for a designated pod: the granted devices are designated ones and the request fits what
+   the designation leaves of them (hence also their free amount) *)
+Definition desig_sound_t (pl : list ledger) (infos : list devinfo) (dg : dallocs) (t : nat) (rq : rawreq)
+           (al : list alloc) : bool :=
+  match treq_of rq t with
+  | TReq per count _ =>
+      let l := avail_of pl dg t in
+      Nat.eqb (length al) (desired_of count) && nodupn (map fst al)
+      && forallb (fun a => memn (fst a) (minors_of infos t)
+                           && match dget (free l) (fst a) with Some _ => fits_exposed l per (fst a) | None => false end
+                           && granted_ok t per (snd a)) al
+  | _ => match al with [] => true | _ => false end
+  end.
+(* clause 5 for a designated pod *)
+Definition desig_short_t (kind : Z) (pl : list ledger) (infos : list devinfo) (dg : dallocs) (t : nat)
+           (rq : rawreq) : bool :=
+  match treq_of rq t with
+  | TReq per count sh =>
+      Nat.ltb (eligible_count (avail_of pl dg t) (minors_of infos t) per) (desired_of count)
+      || (Nat.eqb t 0 && part_short kind (avail_of pl dg t) (minors_of infos t) count sh)
+  | _ => false
+  end.
+(* Filter of a designated pod accepted: enough designated devices can take the request *)
+Definition desig_enough_t (pl : list ledger) (infos : list devinfo) (dg : dallocs) (t : nat) (rq : rawreq) : bool :=
+  match treq_of rq t with
+  | TReq per count _ =>
+      Nat.leb (desired_of count) (maybe_count (avail_of pl dg t) (minors_of infos t) per)
+  | _ => true
+  end.
+
 (* ================================================================== structural equality *)
 Definition res_eqb (a b : res) : bool :=
   opt_eqb (r0 a) (r0 b) && opt_eqb (r1 a) (r1 b) && opt_eqb (r2 a) (r2 b).
@@ -212,7 +267,6 @@ Definition ledgers_eqb (a b : list ledger) : bool :=
 (* clause 8: the allocate set of every device type holds exactly the pods the environment
    considers bound, each with the allocation recorded for it (its annotation / the result handed
    out at Reserve) — so that "sum over the allocate set" is "sum over the live pods" *)
-Definition is_nil {A} (l : list A) : bool := match l with [] => true | _ => false end.
 Definition consb (rec : list (Z * (dallocs * bool))) (t : nat) (a : list (Z * devres)) : bool :=
   forallb (fun e => match lookup (fst e) rec with
                     | Some (da, _) =>
@@ -234,7 +288,7 @@ Definition next_rec (rec : list (Z * (dallocs * bool))) (o : op) (out : opout)
   : list (Z * (dallocs * bool)) :=
   if negb (o_code out =? 0) then rec
   else match o with
-       | OSchedule p _ => set_key p (o_allocs out, true) rec
+       | OSchedule p _ | OReserve p => set_key p (o_allocs out, true) rec
        | OUnreserve p | OPodDelete p | OPodTerminated p => remove_key p rec
        | OForeignAdd p al | OPodUpdate p al => set_key p (group_allocs al, false) rec
        | _ => rec
@@ -247,10 +301,13 @@ Record track := mkTrack {
   k_wf : bool;                (* all environment-supplied data so far were well-formed *)
   k_env : bool;               (* no environment operation so far left a device over-committed *)
   k_rec : list (Z * (dallocs * bool));  (* pods the environment considers bound, with their allocation *)
-  k_kind : Z                  (* node labels (partition table / policy), see [nkind] *)
+  k_kind : Z;                 (* node labels (partition table / policy), see [nkind] *)
+  k_pend : list (Z * cycle);  (* scheduling cycles that passed Filter and were not reserved yet *)
+  k_gkey : bool               (* a GPU entry exists in deviceTotal: some inventory listed a GPU or some
+                                 pod held one *)
 }.
 Definition init_track : track :=
-  mkTrack [] [empty_ledger; empty_ledger; empty_ledger] true true [] 0.
+  mkTrack [] [empty_ledger; empty_ledger; empty_ledger] true true [] 0 [] false.
 
 Definition first_nz (l : list Z) : Z :=
   fold_right (fun c r => if c =? 0 then r else c) 0 l.
@@ -260,10 +317,17 @@ Definition chk (b : bool) (c : Z) : Z := if b then 0 else c.
 Definition is_frame (o : op) (code : Z) : bool :=
   (code =? -1)
   || match o with
-     | OPodAdd _ | OPreemptFilter _ _ _ | ONodeKind _ => true
-     | OSchedule _ _ => negb (code =? 0)
+     | OPodAdd _ | OPreemptFilter _ _ _ | ONodeKind _ | OFilter _ _ _ _ | OFilterAgain _ => true
+     | OSchedule _ _ | OReserve _ => negb (code =? 0)
      | _ => false
      end.
+
+Definition refused_ok (k : track) (rq : rawreq) : bool :=
+  existsb (fun t => is_invalid (treq_of rq t)) type_ids
+  || existsb (fun t => no_device_t (k_prev k) t rq) type_ids
+  || part_unsupported (k_kind k) (treq_of rq 0).
+Definition skip_ok (rq : rawreq) : bool :=
+  negb (existsb (fun t => is_req (treq_of rq t) || is_invalid (treq_of rq t)) type_ids).
 
 Definition check_schedule (k : track) (rq : rawreq) (out : opout) : Z :=
   let c := o_code out in
@@ -272,12 +336,8 @@ Definition check_schedule (k : track) (rq : rawreq) (out : opout) : Z :=
          || forallb (fun t => alloc_sound_t (k_prev k) (k_infos k) t rq (allocs_of (o_allocs out) t)) type_ids) 4
   else if c =? 1 then
     chk (existsb (fun t => alloc_short_t (k_kind k) (k_prev k) (k_infos k) t rq) type_ids) 5
-  else if c =? 2 then
-    chk (existsb (fun t => is_invalid (treq_of rq t)) type_ids
-         || existsb (fun t => no_device_t (k_prev k) t rq) type_ids
-         || part_unsupported (k_kind k) (treq_of rq 0)) 5
-  else if c =? 4 then
-    chk (negb (existsb (fun t => is_req (treq_of rq t) || is_invalid (treq_of rq t)) type_ids)) 5
+  else if c =? 2 then chk (refused_ok k rq) 5
+  else if c =? 4 then chk (skip_ok rq) 5
   else if c =? -1 then 0
   else 7.
 
@@ -288,18 +348,80 @@ Definition check_preempt (k : track) (rq : rawreq) (victims : list Z) (out : opo
          || forallb (fun t => preempt_enough_t (k_prev k) (k_infos k) victims t rq) type_ids) 10
   else if c =? 1 then
     chk (existsb (fun t => preempt_short_t (k_kind k) (k_prev k) (k_infos k) victims t rq) type_ids) 11
-  else if c =? 2 then
-    chk (existsb (fun t => is_invalid (treq_of rq t)) type_ids
-         || existsb (fun t => no_device_t (k_prev k) t rq) type_ids
-         || part_unsupported (k_kind k) (treq_of rq 0)) 11
-  else if c =? 4 then
-    chk (negb (existsb (fun t => is_req (treq_of rq t) || is_invalid (treq_of rq t)) type_ids)) 11
+  else if c =? 2 then chk (refused_ok k rq) 11
+  else if c =? 4 then chk (skip_ok rq) 11
   else 7.
+
+(* a designated pod: [reserve] = the Reserve phase (the allocation is reported and committed),
+   otherwise the Filter phase (only the verdict) *)
+Definition kfill (k : track) (dg : dallocs) : option dallocs :=
+  desig_fill (k_gkey k) (total (ledger_of (k_prev k) 0)) dg.
+Definition check_desig (k : track) (reserve : bool) (rq : rawreq) (dg : dallocs) (out : opout) : Z :=
+  let c := o_code out in
+  let requested := negb (skip_ok rq) && negb (existsb (fun t => is_invalid (treq_of rq t)) type_ids) in
+  if c =? 0 then
+    chk (negb (sched_ok (k_kind k) (k_prev k) rq)
+         || match kfill k dg with
+            | Some dg' =>
+                if reserve then
+                  forallb (fun t => alloc_sound_t (k_prev k) (k_infos k) t rq (allocs_of (o_allocs out) t)
+                                    && desig_sound_t (k_prev k) (k_infos k) dg' t rq (allocs_of (o_allocs out) t))
+                          type_ids
+                else forallb (fun t => desig_enough_t (k_prev k) (k_infos k) dg' t rq) type_ids
+            | None => false
+            end) (if reserve then 4 else 12)
+  else if c =? 1 then
+    chk (match kfill k dg with
+         | Some dg' => existsb (fun t => desig_short_t (k_kind k) (k_prev k) (k_infos k) dg' t rq) type_ids
+         | None => false
+         end) (if reserve then 5 else 13)
+  else if c =? 2 then chk (refused_ok k rq) (if reserve then 5 else 13)
+  else if c =? 3 then
+    chk (requested && match kfill k dg with None => true | Some _ => false end) (if reserve then 5 else 13)
+  else if c =? 4 then chk (skip_ok rq) (if reserve then 5 else 13)
+  else if c =? -1 then 0
+  else 7.
+Definition check_filter (k : track) (c : cycle) (out : opout) : Z :=
+  match snd c with
+  | None => check_preempt k (fst c) [] out
+  | Some dg => check_desig k false (fst c) dg out
+  end.
+Definition check_reserve (k : track) (c : cycle) (out : opout) : Z :=
+  match snd c with
+  | None => check_schedule k (fst c) out
+  | Some dg => check_desig k true (fst c) dg out
+  end.
+(* is the pod free to be scheduled / does it have an open cycle, judged from the tracked history *)
+Definition open_cycle (k : track) (p : Z) : option cycle :=
+  match lookup p (k_rec k) with Some _ => None | None => lookup p (k_pend k) end.
+
+(* the cycle state a successful Filter leaves behind *)
+Definition filled_cycle (k : track) (c : cycle) : cycle :=
+  match snd c with
+  | None => c
+  | Some dg => (fst c, Some match kfill k dg with Some dg' => dg' | None => dg end)
+  end.
+Definition next_pend (k : track) (o : op) (out : opout) : list (Z * cycle) :=
+  let upd p c := if o_code out =? 0 then set_key p (filled_cycle k c) (k_pend k)
+                 else remove_key p (k_pend k) in
+  if o_code out =? -1 then k_pend k
+  else match o with
+       | OFilter p rq hint al => upd p (rq, desig_of hint al)
+       | OFilterAgain p => match open_cycle k p with Some c => upd p c | None => k_pend k end
+       | OReserve p => remove_key p (k_pend k)
+       | _ => k_pend k
+       end.
 
 (* a scheduling step stays inside the environment hypothesis only if, on a node with a partition
    table, a whole-GPU request fits the total of every GPU *)
 Definition step_ok (k : track) (o : op) : bool :=
-  match o with OSchedule _ rq => sched_ok (k_kind k) (k_prev k) rq | _ => true end.
+  match o with
+  | OSchedule _ rq => sched_ok (k_kind k) (k_prev k) rq
+  | OReserve p => match open_cycle k p with
+                  | Some c => sched_ok (k_kind k) (k_prev k) (fst c)
+                  | None => true end
+  | _ => true
+  end.
 Definition check_step (k : track) (o : op) (ob : obsrec) : Z :=
   let '(out, ls) := ob in
   let wf := k_wf k && op_wf o in
@@ -311,6 +433,21 @@ Definition check_step (k : track) (o : op) (ob : obsrec) : Z :=
     (if wf then match o with
                 | OSchedule _ rq => check_schedule k rq out
                 | OPreemptFilter _ rq vs => check_preempt k rq vs out
+                | OFilter p rq hint al =>
+                    match lookup p (k_rec k) with
+                    | Some _ => chk (o_code out =? -1) 7
+                    | None => check_filter k (rq, desig_of hint al) out
+                    end
+                | OFilterAgain p =>
+                    match open_cycle k p with
+                    | Some c => check_filter k c out
+                    | None => chk (o_code out =? -1) 7
+                    end
+                | OReserve p =>
+                    match open_cycle k p with
+                    | Some c => check_reserve k c out
+                    | None => chk (o_code out =? -1) 7
+                    end
                 | _ => 0 end
      else 0);
     chk (negb (is_frame o (o_code out)) || ledgers_eqb (k_prev k) ls) 6;
@@ -322,7 +459,10 @@ Definition next_track (k : track) (o : op) (ob : obsrec) : track :=
           (k_wf k && op_wf o)
           (k_env k && (negb (is_env_op o) || inv_okb ls) && step_ok k o)
           (next_rec (k_rec k) o out)
-          (match o with ONodeKind kind => kind | _ => k_kind k end).
+          (match o with ONodeKind kind => kind | _ => k_kind k end)
+          (next_pend k o out)
+          (k_gkey k || match o with ORefresh inv => has_gpu inv | _ => false end
+           || negb (is_nil (aset (ledger_of ls 0)))).
 
 Fixpoint prop_from (k : track) (ops : list op) (obs : list obsrec) : Z :=
   match ops, obs with
